@@ -20,11 +20,46 @@ var skipBiasKinds = func() []string {
 	return k
 }()
 
-func genTreeCase(t *rapid.T) *Case {
+func genTreeCase(t *rapid.T) *Case { return genTreeCaseWith(t, false) }
+
+// genTreeCaseC09: C09 quantifies over all policies, so now and then AllowUnsafe is on, with
+// script / style allowed, allowed only with attributes, or merely taken out of the skip set.
+func genTreeCaseC09(t *rapid.T) *Case { return genTreeCaseWith(t, true) }
+
+func genTreeCaseWith(t *rapid.T, mayBeUnsafe bool) *Case {
 	spec := genSpec(t, &SpecOpts{Kinds: skipBiasKinds})
+	extra := []string{"object", "title", "iframe", "noscript", "frame", "frame", "my-x", "x-a-y", "a", "b", "img", "img", "input", "br"}
+	if mayBeUnsafe && rapid.IntRange(0, 4).Draw(t, "unsafe") == 0 {
+		spec.Ops = append(spec.Ops, Op{Kind: "AllowUnsafe", B: true, ValRe: -1})
+		for _, o := range []Op{
+			{Kind: "AllowElementsContent", Names: []string{"script", "style"}, ValRe: -1},
+			{Kind: "AllowElements", Names: []string{"style"}, ValRe: -1},
+			{Kind: "AllowElements", Names: []string{"script", "b", "i"}, ValRe: -1},
+			{Kind: "AllowAttrs", Attrs: []string{"src", "type"}, Scope: "els", Names: []string{"script"}, ValRe: -1},
+		} {
+			if rapid.Bool().Draw(t, "unsafeop") {
+				spec.Ops = append(spec.Ops, o)
+			}
+		}
+		extra = append(extra, "script", "style", "script", "style", "script", "style")
+	}
 	m := BuildModel(spec)
-	in := genTree(t, m, &treeOpts{extraEls: []string{"object", "title", "iframe", "noscript", "frame", "my-x", "x-a-y", "a", "b", "img", "br"}, depth: 5, comments: true})
+	in := genTree(t, m, &treeOpts{extraEls: extra, depth: 5, comments: true, voidEnds: true})
 	return &Case{Spec: spec, Input: BStr(in), Kind: "tree", Ints: []int{drawStage(t, spec)}}
+}
+
+// voidEndTagsPaired: the generator writes the end tag of a void element only right after its start
+// tag, so an output in which some </v> is not directly preceded by a <v ...> kept the end tag of a
+// start tag it removed.
+func voidEndTagsPaired(toks []tok) (string, bool) {
+	for i, t := range toks {
+		if t.Type == html.EndTagToken && voidEls[t.Name] {
+			if i == 0 || toks[i-1].Type != html.StartTagToken || toks[i-1].Name != t.Name {
+				return t.Name, false
+			}
+		}
+	}
+	return "", true
 }
 
 type regionInfo struct {
@@ -68,6 +103,13 @@ func regions(m *Model, toks []tok) regionInfo {
 				}
 			}
 		case html.EndTagToken:
+			if voidEls[t.Name] {
+				// <img></img>: the end tag of a void element closes nothing
+				if hiddenDepth == 0 {
+					ri.visTags[t.Name]++
+				}
+				continue
+			}
 			if len(st) > 0 {
 				f := st[len(st)-1]
 				st = st[:len(st)-1]
@@ -185,6 +227,14 @@ func checkC09(c *Case, r *Rec) error {
 	if err := balanced(out); err != nil {
 		return violation(out, "C09: input is well nested, output is not: %v", err)
 	}
+	if _, ok := voidEndTagsPaired(tokenize(in)); ok {
+		if name, ok := voidEndTagsPaired(tokenize(out)); !ok {
+			return violation(out, "C09: the start tag of the void element <%s> was removed but its end tag </%s> is still there", name, name)
+		}
+	}
+	if m.unsafe {
+		r.Class("allow_unsafe")
+	}
 	// classification
 	inToks := tokenize(in)
 	droppedBareWithKids, sameName := false, false
@@ -235,5 +285,5 @@ func checkC09(c *Case, r *Rec) error {
 
 func init() {
 	register(&Prop{ID: "C08", Gen: genTreeCase, Check: checkC08})
-	register(&Prop{ID: "C09", Gen: genTreeCase, Check: checkC09})
+	register(&Prop{ID: "C09", Gen: genTreeCaseC09, Check: checkC09})
 }
